@@ -34,7 +34,7 @@ func caseGen() *rapid.Generator[Case] {
 		Creators:  []string{"core", "core", "core", "csv", "texttable", "html", "json", "markdown", "auto:utf8-light"},
 	})
 	return rapid.Custom(func(t *rapid.T) Case {
-		return Case{Script: sg.Draw(t, "script"), SepAfter: rapid.IntRange(0, 5).Draw(t, "sep-after") == 0}
+		return Case{Script: sg.Draw(t, "script"), SepAfter: rapid.IntRange(0, 5).Draw(t, "sep-after") == 0, Grow: rapid.IntRange(0, 5).Draw(t, "grow") == 0}
 	})
 }
 
